@@ -330,6 +330,21 @@ Theorem C13_entity_full_refuted : ~ C13_entity_full_statement.
 Proof. exact entity_full_refuted. Qed.
 Print Assumptions C13_entity_full_refuted.
 
+(* a message appended to a publish topic all of whose messages carry names of their own (not an
+   edit of J5sEdit.edit: the source relation keeps the number of messages of a topic): at the
+   converter (acceptTopic) the messages generated before are a prefix of the new ones and the
+   topic's service keeps its name, role and every earlier rpc (name, request message type) - rpc
+   and message names never depend on how many messages the topic has.  Tie: stream
+   topic-message-append of run_cmpa (CAppendPair), incl. the one-message topic `Orders`. *)
+Theorem C13_publish_topic_append_message_partial :
+  forall snake camel screaming ev tn topic_name rl virt l extra ms ss is ms' ss' is',
+  all_named l ->
+  accept_topic snake camel screaming ev tn topic_name rl virt l = Ok (ms, ss, is) ->
+  accept_topic snake camel screaming ev tn topic_name rl virt (l ++ extra) = Ok (ms', ss', is') ->
+  prefix_of ms ms' /\ Forall2 service_ext ss ss'.
+Proof. exact publish_append_messages. Qed.
+Print Assumptions C13_publish_topic_append_message_partial.
+
 (* non-vacuity: appending a field to a two-field object keeps fields 1 and 2 and adds number 3 *)
 Example C13_example :
   let ev := mkEnv (b "foo.v1") [] (fun _ => None) in
